@@ -9,9 +9,15 @@ Streams (corpus first):
   T2c      : Method.field_headers / FieldHeader.disambiguated on generated http rules vs the model
   T3       : generated APIs (explicit / implicit / both / none) -> real generator -> emitted sync, asyncio and REST
              clients against loopback servers; header seen by the server vs oracle vs model
+
+Second deepening round: the services live in the API package or in proto sub-packages (six package layouts, one or
+two services; `autogen-snippets=false`), http rules with `custom {kind, path}` verbs, the asyncio REST transport
+(`rest_async_io_enabled`), the named segment written `{key}`, varying caller metadata; probes outside the statement
+(a caller's own x-goog-request-params pair, a template without named segment in the emitted chain) are compared with
+the model only (`c06.transport`, `chain_raises`), never judged by the oracle.
 """
 from __future__ import annotations
-import copy, glob, json, keyword, os, re, urllib.parse
+import copy, glob, json, keyword, os, re, tempfile, urllib.parse
 import apigen, genrun, libhost, rpc, translate, common
 
 PKG = "acme.lib.v1"
@@ -39,7 +45,18 @@ def render_tok(t):
 def render_seg(s):
     if s[0] == "named":
         return "{" + s[1] + "=" + "/".join(render_tok(t) for t in s[2]) + "}"
+    if s[0] == "bare":                  # `{key}`: google.api.http's short form of `{key=*}`
+        return "{" + s[1] + "}"
     return render_tok(s)
+
+
+def is_named(s):
+    return s[0] in ("named", "bare")
+
+
+def named_sub(s):
+    """the unnamed segments a named segment spans (`{key}` = one `*`)"""
+    return s[2] if s[0] == "named" else [["star"]]
 
 
 def render_template(segs):
@@ -62,7 +79,7 @@ def gen_unnamed(r, lo, hi, allow_final_dstar):
     return toks
 
 
-def gen_template(r, key=None):
+def gen_template(r, key=None, allow_bare=False):
     """routing path template per the quantifier: `{key=*}`, `{key=**}`, literal prefixes/suffixes; exactly one
     named segment; `**` only as the last segment of the whole template"""
     key = key or r.pick(KEYS)
@@ -78,14 +95,17 @@ def gen_template(r, key=None):
         post = []
     else:
         post = gen_unnamed(r, 0, 2, True) if r.maybe(0.6) else []
-    return pre + [["named", key, sub]] + post
+    # `{key}` (google.api.http's short form; `to_regex` rewrites it to `{key=*}`) only at function level: a routing rule
+    # with it cannot be generated at all (uri_sample.sample_from_path_template needs the `=`; recorded probe)
+    named = ["bare", key] if (allow_bare and sub == [["star"]] and r.maybe(0.3)) else ["named", key, sub]
+    return pre + [named] + post
 
 
 def flat_toks(segs):
     out = []
     for s in segs:
-        if s[0] == "named":
-            out += [(t, True) for t in s[2]]
+        if is_named(s):
+            out += [(t, True) for t in named_sub(s)]
         else:
             out.append((s, False))
     return out
@@ -188,7 +208,7 @@ def real_param(field, template):
 
 
 def check_templates(ctx, r, ntemplates, nvalues, extra=()):
-    cases = [(gen_template(r), None) for _ in range(ntemplates)] + list(extra)
+    cases = [(gen_template(r, allow_bare=True), None) for _ in range(ntemplates)] + list(extra)
     cases += [(gen_unnamed(r, 1, 3, True), None) for _ in range(max(1, ntemplates // 12))]      # no named segment
     ops, metas = [], []
     for segs, vals in cases:
@@ -200,7 +220,7 @@ def check_templates(ctx, r, ntemplates, nvalues, extra=()):
     for (segs, values), mo in zip(metas, model):
         tmpl = render_template(segs)
         payload = {"template_segs": segs, "template": tmpl}
-        ctx.count("template_shape", shape_of(segs) if any(x[0] == "named" for x in segs) else "unnamed")
+        ctx.count("template_shape", shape_of(segs) if any(is_named(x) for x in segs) else "unnamed")
         try:
             p = real_param("f", tmpl)
             pat = p.to_regex().pattern
@@ -218,11 +238,15 @@ def check_templates(ctx, r, ntemplates, nvalues, extra=()):
             if real["re"] != mo["regex"]["re"] or real["names"] != mo["regex"]["names"] or key != "f" or mo["rendered"] != tmpl:
                 ctx.disagree("T2:c06.to_regex_unnamed", f"regex AST/key differ for {tmpl!r}: impl {pat!r} key {key!r}", payload)
             rx = re.compile(pat)
-            for v, mm, ms in zip(values, mo["matches"], mo["scanmatches"]):
+            for v, mm, ms, mr in zip(values, mo["matches"], mo["scanmatches"], mo["chain_raises"]):
                 ctx.case(distinct_key=["tv0", tmpl, v], nontrivial=True)
                 ctx.traces += 1
                 if bool(rx.match(v)) != mm or mm != ms:
                     ctx.disagree("T2:c06.match_unnamed", f"{tmpl!r} on {v!r}: impl {bool(rx.match(v))} model {mm} scanner {ms}", {**payload, "value": v})
+                # what the emitted `if regex_match and regex_match.group("<key>")` does with this pattern and key
+                raises = rx.match(v) is not None and str(_group_or_error(rx, v, key)).startswith("raised IndexError")
+                if raises != mr:
+                    ctx.disagree("T2:c06.unnamed_chain", f"{tmpl!r} on {v!r}: `.group({key!r})` raises IndexError: impl {raises}, model {mr}", {**payload, "value": v})
             continue
         if "error" in mo or mo.get("unsupported"):
             ctx.unsupported += 1
@@ -255,16 +279,17 @@ def check_templates(ctx, r, ntemplates, nvalues, extra=()):
 
 def shape_of(segs):
     toks = flat_toks(segs)
-    named = [s for s in segs if s[0] == "named"][0]
+    named = [s for s in segs if is_named(s)][0]
     i = segs.index(named)
-    return ("pre+" if i > 0 else "") + "{" + "/".join(t[0] for t in named[2]) + "}" + ("+post" if i < len(segs) - 1 else "") + \
+    inner = "/".join(t[0] for t in named[2]) if named[0] == "named" else "bare"
+    return ("pre+" if i > 0 else "") + "{" + inner + "}" + ("+post" if i < len(segs) - 1 else "") + \
         ("+tail**" if segs[-1] == ["dstar"] else "")
 
 
 def check_many_named(ctx, r, n):
     ops, metas = [], []
     for _ in range(n):
-        segs = gen_template(r) + [["lit", r.pick(COLL)]] + [s for s in gen_template(r) if s[0] == "named"]
+        segs = gen_template(r, allow_bare=True) + [["lit", r.pick(COLL)]] + [s for s in gen_template(r, allow_bare=True) if is_named(s)]
         ops.append({"op": "c06.template", "segs": segs, "values": []})
         metas.append(segs)
     for segs, mo in zip(metas, ctx.driver.ask(ops)):
@@ -280,6 +305,34 @@ def check_many_named(ctx, r, n):
         ctx.traces += 1
         if (raised == "ValueError") != (mo.get("error") == "manyNamed"):
             ctx.disagree("T2:c06.many_named", f"{tmpl!r}: impl raised {raised}, model {mo}", {"template_segs": segs, "template": tmpl})
+
+# ------------------------------------------------------------------ T2e: literal segments are copied into the pattern unescaped
+
+DOT_LITS = ["v1.0", "k8s.io", "a.b.c", ".", "items.", "projects", "k8s-items", "item_2", "v1"]
+
+
+def check_literals(ctx, r, n):
+    """a template that is one collection id: the real pattern vs `litItemsReal` (a `.` is the regex `any`); the values
+    on which the regex and the template language differ lie outside the generated space (hypothesis of
+    `lit_items_plain`, witness `dot_literal_counterexample`) and are only compared with the model"""
+    lits = DOT_LITS + ["".join(r.pick("abcxyz019._-") for _ in range(r.randint(1, 6))) for _ in range(n)]
+    ops, metas = [], []
+    for lit in lits:
+        values = [lit, lit.replace(".", "x"), lit.replace(".", "/"), lit + "x", lit[:-1], ""]
+        ops.append({"op": "c06.literal", "lit": lit, "values": values})
+        metas.append((lit, values))
+    for (lit, values), mo in zip(metas, ctx.driver.ask(ops)):
+        pat = real_param("f", lit).to_regex().pattern
+        real = translate.regex_to_json(pat)
+        ctx.case(distinct_key=["lit", lit], nontrivial="." in lit)
+        ctx.count("literal", "with-dot" if "." in lit else "plain")
+        ctx.traces += 1
+        if real["re"] != mo["regex"]["re"] or mo["plain"] != ("." not in lit):
+            ctx.disagree("T2:c06.literal", f"literal template {lit!r}: impl pattern {pat!r} differs from the model's", {"lit": lit})
+        rx = re.compile(pat)
+        for v, mm in zip(values, mo["matches"]):
+            if bool(rx.match(v)) != mm:
+                ctx.disagree("T2:c06.literal_match", f"literal template {lit!r} on {v!r}: impl {bool(rx.match(v))}, model {mm}", {"lit": lit, "value": v})
 
 # ------------------------------------------------------------------ T2d: RoutingRule.resolve (schema side, feeds the emitted tests)
 
@@ -395,9 +448,23 @@ def gen_http(r, fields, nvars=None):
         parts.append(["var", f, sub])
     if r.maybe(0.3) and not (parts[-1][0] == "var" and parts[-1][2] and parts[-1][2][-1] == ["dstar"]):
         parts.append(["lit", r.pick(["settings", "config", "items"])])
-    verb = r.pick(["get", "post", "put", "patch", "delete"])
+    verb = r.pick(STD_VERBS)
+    if r.maybe(0.15):
+        verb = r.pick(CUSTOM_KINDS)     # `custom { kind: "HEAD" path: "…" }`: a path template like any other (no REST binding)
     suffix = ":" + r.pick(["run", "cancel", "move"]) if r.maybe(0.25) else ""
     return {"verb": verb, "parts": parts, "suffix": suffix}
+
+
+STD_VERBS = ["get", "post", "put", "patch", "delete"]
+CUSTOM_KINDS = ["HEAD", "OPTIONS", "LIST"]
+
+
+def rule_json(h, binding=None):
+    """the google.api.http rule as written, for the model (`HttpRule`): member of the `pattern` oneof, path, bindings"""
+    if not h:
+        return None
+    return {"verb": h["verb"] if h["verb"] in STD_VERBS else "custom:" + h["verb"], "path": render_http(h),
+            "bindings": [["get", binding]] if binding else []}
 
 
 def render_http(h):
@@ -563,7 +630,7 @@ def expected_pairs(spec, req):
             else:
                 cap = ref_capture(p["segs"], v)
                 if cap:
-                    key = [s for s in p["segs"] if s[0] == "named"][0][1]
+                    key = [s for s in p["segs"] if is_named(s)][0][1]
                     out[key] = cap
         return (bool(out), [[k, v] for k, v in out.items()])
     if spec["http"] and http_vars(spec["http"]):
@@ -603,9 +670,65 @@ def model_request(req):
 
 ALL_FIELDS = TOP + KW_TOP
 
+# package layouts of the target files (`%sub` of the template tree).  Initial letters of service sub-packages and of
+# type sub-packages are pairwise distinct, so that `acme.lib.v1` stays the common root (Naming.build: commonprefix).
+SVC_SUBS = ["admin", "beta.deep", "keepers"]
+TYPE_SUBS = ["resources", "x"]
+FLAT = {"kind": "flat", "svc": None, "types": None, "svc2": None}
+SERVICE_NAMES = ["Library", "Catalog"]
 
-def build_files(specs):
-    f = apigen.File("acme/lib/v1/lib.proto", PKG)
+
+def gen_layout(r):
+    """where the service(s) and the messages are declared: all in the API package (`flat`); the service in a
+    sub-package; everything in ONE sub-package; the messages in a sub-package; both in different sub-packages; two
+    services (the second always in a sub-package of its own)"""
+    k = r.pick(["flat"] * 3 + ["svc-sub"] * 2 + ["all-sub", "types-sub", "both-sub", "two-svc", "two-svc"])
+    lay = dict(FLAT, kind=k)
+    a = r.pick(SVC_SUBS)
+    if k == "svc-sub":
+        lay["svc"] = a
+    elif k == "all-sub":
+        lay["svc"] = lay["types"] = a
+    elif k == "types-sub":
+        lay["types"] = r.pick(TYPE_SUBS)
+    elif k == "both-sub":
+        lay["svc"], lay["types"] = a, r.pick(TYPE_SUBS)
+    elif k == "two-svc":
+        lay["svc"] = a if r.maybe(0.4) else None
+        lay["svc2"] = r.pick([x for x in SVC_SUBS if x != a])
+        if r.maybe(0.3):
+            lay["types"] = r.pick(TYPE_SUBS)
+    return lay
+
+
+def pkg_of(sub):
+    return PKG + ("." + sub if sub else "")
+
+
+def service_pkg(layout, i):
+    """the proto package of the file that declares service i"""
+    return pkg_of(layout["svc2"] if i == 1 else layout["svc"])
+
+
+def api_root(layout, used):
+    """what the generator takes as the API's proto package: the common root of the target files' packages"""
+    pk = {pkg_of(layout["types"])} | {service_pkg(layout, i) for i in used}
+    return os.path.commonprefix(tuple(pk)).rstrip(".")
+
+
+def svc_index(spec, layout):
+    return 1 if (spec.get("svc") == 1 and layout.get("svc2")) else 0
+
+
+def build_files(specs, layout=None):
+    layout = layout or FLAT
+
+    def path_of(sub, stem):
+        return "acme/lib/v1/" + (sub.replace(".", "/") + "/" if sub else "") + stem + ".proto"
+    used = sorted({svc_index(s, layout) for s in specs})
+    one_file = used == [0] and layout["svc"] == layout["types"]
+    f = apigen.File(path_of(layout["types"], "lib" if one_file else "lib_types"), pkg_of(layout["types"]))
+    files = [f]
     shelf_fields, book_fields = ["name", "id", "type"], ["name", "title", "format"]
     for s in specs:
         for fld in spec_fields(s):
@@ -623,8 +746,17 @@ def build_files(specs):
     book.field("shelf", "message", type_name=shelf)
     rs = f.msg("Reply")
     rs.field("note")
-    svc = f.service("Library")
+    svcs = {}
+    for i in used:
+        if one_file:
+            sf = f
+        else:
+            sf = apigen.File(path_of(layout["svc2"] if i else layout["svc"], ["lib_service", "catalog_service"][i]), service_pkg(layout, i))
+            sf.dep(f.name)
+            files.append(sf)
+        svcs[i] = sf.service(SERVICE_NAMES[i])
     for s in specs:
+        svc = svcs[svc_index(s, layout)]
         rq = f.msg(s["name"] + "Request")
         tops = list(ALL_FIELDS)
         for fld in spec_fields(s):
@@ -649,7 +781,18 @@ def build_files(specs):
         if s["params"] is not None and not s["params"]:
             from google.api import routing_pb2
             m.options.Extensions[routing_pb2.routing].SetInParent()
-    return [f]
+    return files
+
+
+def write_service_yaml(version):
+    """service YAML that switches the asyncio REST transport on (`rest_async_io_enabled`, keyed by the API's package)"""
+    import yaml
+    y = {"type": "google.api.Service", "config_version": 3, "name": "lib.example.com",
+         "publishing": {"library_settings": [{"version": version, "python_settings": {"experimental_features": {"rest_async_io_enabled": True}}}]}}
+    fd, path = tempfile.mkstemp(prefix="gapicverif_c06_", suffix=".yaml", dir=genrun.SCRATCH)
+    with os.fdopen(fd, "w") as fh:
+        yaml.safe_dump(y, fh)
+    return path
 
 
 def header_of_grpc(rec):
@@ -664,25 +807,59 @@ def header_of_http(rec):
 GEN_PARAMS = {"standard": "transport=grpc+rest,autogen-snippets=false",
               "ads": "python-gapic-templates=ads-templates,old-naming,autogen-snippets=false"}
 CLIENT_KINDS = {"standard": ("grpc", "grpc_asyncio", "rest"), "ads": ("grpc",)}
+REST_KINDS = ("rest", "rest_asyncio")
+API_CLIENT = [["x-goog-api-client", "gapic"]]        # what the wrapped method appends (its value is not looked at)
+CALLER_METADATA = [[["x-verif", "1"]], [["x-verif", "1"]], [], [["x-verif", "1"], ["x-other", "a=b&c d"]],
+                   [["x-other", "z"], ["x-verif", "2"], ["x-other", "y"]]]
 
 
-def run_api(ctx, r, specs, label, ncalls=4, requests=None, templates="standard"):
-    """generate one API for `specs`, T2 on the schema objects, T3 on the emitted clients (standard templates: sync
-    gRPC, asyncio gRPC, REST; ads templates: sync gRPC).  All calls of one client kind go through ONE client object,
-    one after the other (a program, not isolated calls)."""
+def run_api(ctx, r, specs, label, ncalls=4, requests=None, templates="standard", layout=None, rest_async=False,
+            caller_header=0.0):
+    """generate one API for `specs` (services and messages placed per `layout`), T2 on the schema objects, T3 on the
+    emitted clients (standard templates: sync gRPC, asyncio gRPC, REST and — with `rest_async` — asyncio REST; ads
+    templates: sync gRPC).  All calls of one client kind to one service go through ONE client object, one after the
+    other (a program, not isolated calls).  `caller_header`: share of calls in which the caller passes an own
+    x-goog-request-params pair (outside the statement: model comparison only)."""
     import gapic.utils as gu
-    files = build_files(specs)
-    req = apigen.request(files, GEN_PARAMS[templates])
+    layout = layout or FLAT
+    files = build_files(specs, layout)
+    used = sorted({svc_index(s, layout) for s in specs})
+    params = GEN_PARAMS[templates]
+    yaml_path = None
+    if rest_async and templates == "standard":
+        yaml_path = write_service_yaml(api_root(layout, used))
+        params += ",service-yaml=" + yaml_path
+    try:
+        _run_api(ctx, r, specs, label, ncalls, requests, templates, layout, files, used, params, bool(yaml_path), caller_header, gu)
+    finally:
+        if yaml_path:
+            try:
+                os.unlink(yaml_path)
+            except OSError:
+                pass
+
+
+def _run_api(ctx, r, specs, label, ncalls, requests, templates, layout, files, used, params, rest_async, caller_header, gu):
+    req = apigen.request(files, params)
+    base = {"specs": specs, "spec": specs[0], "templates": templates, "layout": layout, "rest_async": rest_async}
     sig = None
     for s in specs:
         sig = sig or classify(s)
     try:
         api, _ = genrun.build_api(req)
     except Exception as e:  # noqa
-        ctx.fail(sig or "schema-build-raised", f"API.build raised {type(e).__name__}: {e}", {"specs": specs})
+        ctx.fail(sig or "schema-build-raised", f"API.build raised {type(e).__name__}: {e}", base)
         return
-    svc = api.services[f"{PKG}.Library"]
-    loc = rpc.py_locations(api, svc)
+    svcs, locs = {}, {}
+    for i in used:
+        full = f"{service_pkg(layout, i)}.{SERVICE_NAMES[i]}"
+        if full not in api.services:
+            ctx.fail("service-missing", f"service {full} is not in the API the generator built ({sorted(api.services)})", base)
+            return
+        svcs[i] = api.services[full]
+        locs[i] = rpc.py_locations(api, svcs[i])
+        locs[i]["rest_asyncio"] = f"{locs[i]['service_module']}.transports.rest_asyncio:Async{svcs[i].name}RestTransport"
+    ctx.count("package_layout", layout["kind"] + ("+rest_asyncio" if rest_async else ""))
     codec = rpc.Codec(files)
     # ---- requests and how the caller passes them
     plans = []
@@ -709,34 +886,33 @@ def run_api(ctx, r, specs, label, ncalls=4, requests=None, templates="standard")
             ops.append({"op": "c06.explicit", "params": [{"field": p["field"], "segs": p["segs"]} for p in s["params"]],
                         "client_streaming": cs, "requests": [model_request(q) for q in reqs]})
         else:
-            verbs = [""] * 6
-            if s["http"]:
-                verbs[["get", "put", "post", "delete", "patch"].index(s["http"]["verb"])] = render_http(s["http"])
-            ops.append({"op": "c06.implicit", "verbs": verbs, "client_streaming": cs, "requests": [model_request(q) for q in reqs]})
+            ops.append({"op": "c06.implicit", "rule": rule_json(s["http"], s.get("binding")), "client_streaming": cs,
+                        "requests": [model_request(q) for q in reqs]})
     model = ctx.driver.ask(ops)
     for (s, reqs, _), mo in zip(plans, model):
-        m = svc.methods[s["name"]]
-        ctx.count("method_kind", s["kind"] + (":" + s["stream"] if s.get("stream") else "") + ("+binding" if s.get("binding") else ""))
+        m = svcs[svc_index(s, layout)].methods[s["name"]]
+        ctx.count("method_kind", s["kind"] + (":" + s["stream"] if s.get("stream") else "") + ("+binding" if s.get("binding") else "") +
+                  ("+custom-verb" if s["http"] and s["http"]["verb"] not in STD_VERBS else ""))
         ctx.traces += 1
         if s["params"] is not None:
             if bool(m.explicit_routing) is not True:
-                ctx.disagree("T2:c06.explicit_routing", f"{s['name']}: routing annotation not seen by the schema", {"spec": s})
+                ctx.disagree("T2:c06.explicit_routing", f"{s['name']}: routing annotation not seen by the schema", {**base, "spec": s})
             if s["params"]:
                 impl_keys = [p.key for p in m.routing_rule.routing_parameters]
                 if impl_keys != mo.get("keys"):
-                    ctx.disagree("T2:c06.key", f"{s['name']}: keys impl {impl_keys} model {mo.get('keys')}", {"spec": s})
+                    ctx.disagree("T2:c06.key", f"{s['name']}: keys impl {impl_keys} model {mo.get('keys')}", {**base, "spec": s})
         else:
             impl_h = [h.raw for h in m.field_headers]
             impl_a = [h.disambiguated for h in m.field_headers]
             if impl_h != mo["headers"] or impl_a != mo["attrs"]:
-                ctx.disagree("T2:c06.field_headers", f"{s['name']}: impl {impl_h}/{impl_a} model {mo['headers']}/{mo['attrs']}", {"spec": s})
+                ctx.disagree("T2:c06.field_headers", f"{s['name']}: impl {impl_h}/{impl_a} model {mo['headers']}/{mo['attrs']}", {**base, "spec": s})
             want_vars = http_vars(s["http"]) if s["http"] else []
             if impl_h != want_vars:
-                ctx.fail("implicit-variables", f"{s['name']}: field_headers {impl_h}, variables of the primary path {want_vars}", {"spec": s})
+                ctx.fail("implicit-variables", f"{s['name']}: field_headers {impl_h}, variables of the primary path {want_vars}", {**base, "spec": s})
     # ---- T3
     res, err = genrun.try_generate(req)
     if err:
-        ctx.fail(sig or ("generation-crash:" + err[0]), f"generator raised {err[0]}: {err[1]}", {"specs": specs, "spec": specs[0], "templates": templates})
+        ctx.fail(sig or ("generation-crash:" + err[0]), f"generator raised {err[0]}: {err[1]}", base)
         return
     bad = []
     for fl in res.file:
@@ -749,67 +925,107 @@ def run_api(ctx, r, specs, label, ncalls=4, requests=None, templates="standard")
         for s in specs:
             ctx.case({"spec_kind": s["kind"], "emitted": "SyntaxError"}, distinct_key=["spec", json.dumps(s, sort_keys=True)])
         ctx.fail(sig or "emitted-client-syntax-error",
-                 f"emitted client does not parse, no call can carry the header: {bad[0]}", {"specs": specs, "spec": specs[0], "templates": templates})
+                 f"emitted client does not parse, no call can carry the header: {bad[0]}", base)
         return
-    kinds = CLIENT_KINDS[templates]
+    kinds = CLIENT_KINDS[templates] + (("rest_asyncio",) if rest_async else ())
+    if rest_async and not any(fl.name.endswith("transports/rest_asyncio.py") for fl in res.file):
+        ctx.fail("rest-asyncio-transport-missing", "rest_async_io_enabled is set for the API's package, no rest_asyncio transport was emitted", base)
+        return
     root = genrun.materialise(res)
     try:
-        calls_by_kind = {k: [] for k in kinds}
+        calls_by = {(i, k): [] for i in used for k in kinds}
         index = []
         for s, reqs, modes in plans:
-            m = svc.methods[s["name"]]
+            i = svc_index(s, layout)
+            m = svcs[i].methods[s["name"]]
             for q, mode in zip(reqs, modes):
                 b64 = codec.encode_b64(m.input.ident.proto, nest(q))
+                user_md = [list(x) for x in r.pick(CALLER_METADATA)]
+                own = bool(caller_header) and r.maybe(caller_header)
+                if own:     # outside the statement: the caller passes an own routing header
+                    user_md = user_md[:1] + [[HDR, "caller=" + r.pick(["1", "a/b", "x y"])]] + user_md[1:]
                 call = {"method": gu.to_snake_case(m.client_method_name), "mode": mode,
                         "py_request": rpc.py_type(m.input), "request_b64": b64,
                         "consume": "stream" if s.get("stream") == "ss" else "value",
-                        "call_kwargs": {"metadata": [["x-verif", "1"]]}}
+                        "call_kwargs": {"metadata": user_md}}
                 if mode == "request-literal-dict":
                     call["request_literal"] = nest(q, literal=True)      # what a caller writes, not rebuilt from bytes
                 if s.get("stream") == "cs":
                     call["stream_requests"] = [b64]
-                rest_ok = ("rest" in kinds and not s.get("stream") and bool(s["http"]) and all(
-                    rest_accepts(var_toks(s["http"], v), q.get(v, "")) for v in http_vars(s["http"])))
-                index.append((s, q, mode, rest_ok))
+                rest_ok = (any(k in REST_KINDS for k in kinds) and not s.get("stream") and bool(s["http"]) and
+                           s["http"]["verb"] in STD_VERBS and
+                           all(rest_accepts(var_toks(s["http"], v), q.get(v, "")) for v in http_vars(s["http"])))
+                index.append((s, q, mode, rest_ok, user_md, own))
                 for k in kinds:
-                    if k != "rest" or rest_ok:
-                        calls_by_kind[k].append(copy.deepcopy(call))
-        sess_of = {"grpc": lambda: {"op": "grpc_session", "client": loc["client"], "transport": loc["grpc"], "async": False, "calls": calls_by_kind["grpc"]},
-                   "grpc_asyncio": lambda: {"op": "grpc_session", "client": loc["async_client"], "transport": loc["grpc_asyncio"], "async": True, "calls": calls_by_kind["grpc_asyncio"]},
-                   "rest": lambda: {"op": "rest_session", "client": loc["client"], "transport": loc["rest"], "calls": calls_by_kind["rest"]}}
-        out = dict(zip(kinds, libhost.run(root, [sess_of[k]() for k in kinds], timeout=600)))
-        for kind, sess in out.items():
+                    if k not in REST_KINDS or rest_ok:
+                        calls_by[(i, k)].append(copy.deepcopy(call))
+
+        def sess_op(i, k):
+            loc = locs[i]
+            if k == "grpc":
+                return {"op": "grpc_session", "client": loc["client"], "transport": loc["grpc"], "async": False, "calls": calls_by[(i, k)]}
+            if k == "grpc_asyncio":
+                return {"op": "grpc_session", "client": loc["async_client"], "transport": loc["grpc_asyncio"], "async": True, "calls": calls_by[(i, k)]}
+            if k == "rest":
+                return {"op": "rest_session", "client": loc["client"], "transport": loc["rest"], "calls": calls_by[(i, k)]}
+            return {"op": "c06_rest_async_session", "client": loc["async_client"], "transport": loc["rest_asyncio"], "calls": calls_by[(i, k)]}
+        order = [(i, k) for i in used for k in kinds]
+        out = dict(zip(order, libhost.run(root, [sess_op(i, k) for i, k in order], timeout=600)))
+        for (i, kind), sess in out.items():
             if "calls" not in sess:
-                ctx.fail(sig or "session-failed", f"T3 {kind} session failed ({templates} templates): {str(sess)[-400:]}", {"specs": specs, "spec": specs[0], "templates": templates})
+                ctx.fail(sig or "session-failed", f"T3 {kind} session of {SERVICE_NAMES[i]} failed ({templates} templates, layout {layout['kind']}): "
+                         f"{str(sess)[-400:]}", base)
                 return
-        iters = {k: iter(out[k]["calls"]) for k in kinds}
+        iters = {ik: iter(out[ik]["calls"]) for ik in order}
         mres = []
         for (s, reqs, _), mo in zip(plans, model):
             for k in range(len(reqs)):
                 mres.append(mo["results"][k] if "results" in mo else None)
-        for (s, q, mode, rest_ok), mo in zip(index, mres):
-            payload = {"spec": s, "request": q, "mode": mode, "templates": templates}
+        # what each transport does with the call's metadata (model: `callMetadata`, `grpcValues`, `restValue`)
+        tmodel = ctx.driver.ask([{"op": "c06.transport", "user": md, "extra": API_CLIENT,
+                                  "routing": (mo or {}).get("header")} for (_, _, _, _, md, _), mo in zip(index, mres)])
+        for (s, q, mode, rest_ok, user_md, own), mo, tm in zip(index, mres, tmodel):
+            i = svc_index(s, layout)
+            payload = {"spec": s, "request": q, "mode": mode, "templates": templates, "layout": layout, "rest_async": rest_async}
             present, want = expected_pairs(s, q)
             seen = {}
             for kind in kinds:
-                if kind == "rest" and not rest_ok:
+                if kind in REST_KINDS and not rest_ok:
                     continue
-                rec = next(iters[kind])
+                rec = next(iters[(i, kind)])
                 if "ok" not in rec:
-                    ctx.fail(f"call-raised:{kind}", f"{s['name']} via {kind}: {rec.get('raised')}: {rec.get('msg', '')[:200]}", payload)
+                    ctx.fail(f"call-raised:{kind}", f"{s['name']} via {kind}: {rec.get('raised')}: {rec.get('msg', '')[:200]}", {**payload, "client": kind})
                     continue
                 srv = rec["server"]
                 if len(srv) != 1:
-                    ctx.fail("call-count", f"{s['name']} via {kind}: {len(srv)} requests at the server", payload)
+                    ctx.fail("call-count", f"{s['name']} via {kind}: {len(srv)} requests at the server", {**payload, "client": kind})
                     continue
-                hs = header_of_http(srv[0]) if kind == "rest" else header_of_grpc(srv[0])
+                hs = header_of_http(srv[0]) if kind in REST_KINDS else header_of_grpc(srv[0])
+                # ---- correspondence with the model: the header values this transport puts on the wire
+                ctx.traces += 1
+                if mo is not None:
+                    want_hs = ([tm["rest"]] if tm["rest"] is not None else []) if kind in REST_KINDS else tm["grpc"]
+                    if hs != want_hs:
+                        ctx.disagree("T3:c06.header", f"{s['name']} via {kind} ({templates}, {layout['kind']}): model {want_hs!r} vs impl {hs!r}",
+                                     {**payload, "client": kind})
+                if kind in REST_KINDS:
+                    got_keys = {k.lower() for k, _ in srv[0]["headers"]}
+                    lost = [k for k, _ in user_md if k.lower() not in got_keys]
+                    if lost:
+                        ctx.disagree("T3:c06.rest_metadata", f"{s['name']} via {kind}: caller metadata keys {lost} did not reach the HTTP server", {**payload, "client": kind})
+                if own:
+                    ctx.count("probe", "caller-header:" + kind + ":" + str(len(hs)))
+                    continue
                 if len(hs) > 1:
-                    ctx.fail("header-duplicated", f"{s['name']} via {kind}: {len(hs)} {HDR} headers: {hs}", payload)
+                    ctx.fail("header-duplicated", f"{s['name']} via {kind}: {len(hs)} {HDR} headers: {hs}", {**payload, "client": kind})
                     continue
                 seen[kind] = hs[0] if hs else None
+            if own:
+                ctx.case(distinct_key=["probe", templates, json.dumps(s, sort_keys=True), json.dumps(q, sort_keys=True), mode], nontrivial=False)
+                continue
             ctx.case({"kind": s["kind"], "template": [render_template(p["segs"]) if p["segs"] else None for p in (s["params"] or [])],
                       "http": render_http(s["http"]) if s["http"] else None, "request": q, "header": seen.get("grpc")},
-                     distinct_key=["call", templates, json.dumps(s, sort_keys=True), json.dumps(q, sort_keys=True), mode],
+                     distinct_key=["call", templates, layout["kind"], json.dumps(s, sort_keys=True), json.dumps(q, sort_keys=True), mode],
                      nontrivial=s["kind"] not in ("none",))
             ctx.count("expected_header", "present" if present else "absent")
             ctx.count("clients", templates + ":" + "+".join(sorted(seen)))
@@ -822,18 +1038,14 @@ def run_api(ctx, r, specs, label, ncalls=4, requests=None, templates="standard")
                     # no request exists when a client-streaming call starts: the statement's pairs cannot be formed;
                     # all it allows is "no routing information"
                     if h not in (None, ""):
-                        ctx.fail("client-streaming-header", f"{s['name']} via {kind}: client-streaming call carries {h!r}", payload)
+                        ctx.fail("client-streaming-header", f"{s['name']} via {kind}: client-streaming call carries {h!r}", {**payload, "client": kind})
                 elif not present:
                     if h is not None:
-                        ctx.fail(known or "header-when-nothing-matches", f"{s['name']} via {kind}: header {h!r} sent although nothing matches", payload)
+                        ctx.fail(known or "header-when-nothing-matches", f"{s['name']} via {kind}: header {h!r} sent although nothing matches", {**payload, "client": kind})
                 elif h is None:
                     ctx.fail(known or "header-missing", f"{s['name']} via {kind}: no {HDR} header, expected {want}", {**payload, "client": kind})
                 else:
                     oracle_header(ctx, h, want, {**payload, "client": kind}, f"{s['name']} via {kind}", key=known)
-                # ---- correspondence with the model
-                ctx.traces += 1
-                if mo is not None and mo.get("header") != h:
-                    ctx.disagree("T3:c06.header", f"{s['name']} via {kind} ({templates}): model {mo.get('header')!r} vs impl {h!r}", {**payload, "client": kind})
             if len(set(seen.values())) > 1:
                 ctx.fail("clients-disagree", f"{s['name']}: sync/asyncio/REST headers differ: {seen}", payload)
     finally:
@@ -853,23 +1065,28 @@ def check_field_headers(ctx, r, nmethods):
     metas = []
     for i in range(nmethods):
         h = gen_http(r, TOP + KW_TOP + NESTED + ["book.class", "import.name"])
-        verb = r.pick(["get", "put", "post", "delete", "patch", "HEAD"])
+        verb = r.pick(STD_VERBS + CUSTOM_KINDS[:2])
         h["verb"] = verb
-        svc.method(f"M{i}", rq, rs, http=(verb, render_http(h)), bindings=[("get", "/v1/{resource=other/*}", None)] if r.maybe(0.3) else ())
+        h["binding"] = "/v1/{resource=other/*}" if r.maybe(0.3) else None
+        svc.method(f"M{i}", rq, rs, http=(verb, render_http(h)), bindings=[("get", h["binding"], None)] if h["binding"] else ())
         metas.append(h)
     api, _ = genrun.build_api(apigen.request([f], "transport=grpc", check=False))
     svc_ = api.services[f"{PKG}.Library"]
     ops = []
     for h in metas:
-        verbs = [""] * 6
-        verbs[["get", "put", "post", "delete", "patch", "HEAD"].index(h["verb"])] = render_http(h)
-        ops.append({"op": "c06.implicit", "verbs": verbs, "requests": []})
+        ops.append({"op": "c06.implicit", "rule": rule_json(h, h["binding"]), "requests": []})
     for i, (h, mo) in enumerate(zip(metas, ctx.driver.ask(ops))):
         m = svc_.methods[f"M{i}"]
         impl_h = [x.raw for x in m.field_headers]
         impl_a = [x.disambiguated for x in m.field_headers]
         ctx.case({"http": render_http(h), "field_headers": impl_h}, distinct_key=["http", h["verb"], render_http(h)])
         ctx.count("http_vars", len(impl_h))
+        ctx.count("http_verb", h["verb"] if h["verb"] in STD_VERBS else "custom")
+        # the six slots `field_headers` looks at, read off the real option message
+        from google.api import annotations_pb2
+        o = m.options.Extensions[annotations_pb2.http]
+        if [o.get, o.put, o.post, o.delete, o.patch, o.custom.path] != mo["verbs"]:
+            ctx.disagree("T2:c06.http_rule", f"{h['verb']} {render_http(h)!r}: option slots differ from the model's {mo['verbs']}", {"http": h})
         ctx.traces += 1
         if impl_h != mo["headers"] or impl_a != mo["attrs"]:
             ctx.disagree("T2:c06.field_headers", f"{render_http(h)!r}: impl {impl_h}/{impl_a} model {mo['headers']}/{mo['attrs']}", {"http": h})
@@ -901,7 +1118,8 @@ def run_payload(ctx, r, payload, label):
         reqs = {s["name"]: [payload["request"]]} if "request" in payload else None
         if "requests" in payload:
             reqs = {s["name"]: payload["requests"]}
-        run_api(ctx, r, [s], label, ncalls=3, requests=reqs, templates=payload.get("templates", "standard"))
+        run_api(ctx, r, [s], label, ncalls=3, requests=reqs, templates=payload.get("templates", "standard"),
+                layout=payload.get("layout"), rest_async=bool(payload.get("rest_async")))
     elif "template_segs" in payload:
         vals = [payload["value"]] if "value" in payload else None
         check_templates(ctx, r, 0, 6, extra=[(payload["template_segs"], vals)])
@@ -930,6 +1148,10 @@ def probe_excluded(ctx):
         lambda: [real_param("f", "{k}").to_regex().pattern, real_param("f", "{k}").sample_request])
     rec("template without a named segment `projects/*`: key, and what the emitted `.group(key)` would do",
         lambda: [real_param("f", "projects/*").key, _group_or_error(real_param("f", "projects/*").to_regex(), "projects/p", "f")])
+    rec("routing rule whose template has no named segment: what generation does (RoutingRule.resolve on the parameter's own sample, "
+        "called by the emitted-test template)", lambda: _resolve_sample(real_param("name", "projects/*")))
+    rec("routing rule whose template is `projects/{k}`: what generation does (same call)",
+        lambda: _resolve_sample(real_param("name", "projects/{k}")))
     rec("literal with a regex metacharacter `v1.0/{k=*}` on `v1x0/abc`",
         lambda: repr(real_param("f", "v1.0/{k=*}").to_regex().match("v1x0/abc")))
     rec("`**` before the last segment `{k=a/**}/b` on `a/x/b`",
@@ -937,6 +1159,12 @@ def probe_excluded(ctx):
     rec("implicit routing on enum / bool fields: what urlencode(str(value)) sends (google-api-core, Python 3.12)",
         lambda: _enum_bool_probe())
     ctx.notes["excluded_points_outside_quantifier"] = out
+
+
+def _resolve_sample(p):
+    from gapic.schema import wrappers
+    rule = wrappers.RoutingRule([p])
+    return wrappers.RoutingRule.resolve(rule, p.sample_request)
 
 
 def _enum_bool_probe():
@@ -961,15 +1189,21 @@ def _group_or_error(rx, v, key):
 def run(ctx):
     ctx.rule = ("routing rules per the quantifier (no template, {key=*}, {key=**}, literal prefixes/suffixes, 1..5 parameters "
                 "sharing keys and fields, nested fields) and implicit http templates (1..3 variables, dotted and reserved-word "
-                "fields) x request values (matching, mutated to non-matching, empty, characters needing escaping) x "
-                "{sync, asyncio, REST}; distinct by (template, value) at function level and by (method spec, request) at "
+                "fields; get/put/post/delete/patch or `custom {kind, path}` primary bindings, additional bindings) x "
+                "request values (matching, mutated to non-matching, empty, characters needing escaping) x {sync gRPC, asyncio "
+                "gRPC, REST, asyncio REST} x package layouts (service(s) and messages in the API package or in proto "
+                "sub-packages, one or two services) x caller metadata; distinct by (template, value) at function level and by (method spec, request) at "
                 "T3; non-trivial = every (template, value) pair and every call of a method that has routing information")
     ctx.assume("request values contain no newline (`.` in `.*` does not match it; resource names never contain one)")
     ctx.assume("routing path templates follow routing.proto: exactly one named segment `{key=...}`, `**` only as the last "
-               "segment, literal segments are collection ids without regex metacharacters; a template without a named "
-               "segment (rejected by routing.proto, accepted by the generator) is not generated")
-    ctx.assume("routing fields and path variables are string fields; client-streaming methods (no request at call time) "
-               "are not generated")
+               "segment, literal segments are collection ids without regex metacharacters (a `.` in a literal: function level "
+               "only, `dot_literal_counterexample`); a template without a named segment (rejected by routing.proto; to_regex "
+               "accepts it, generation of such a rule fails in RoutingRule.resolve) occurs at function level only")
+    ctx.assume("routing fields are string fields (path variables: strings and integers)")
+    ctx.assume("the caller does not pass an x-goog-request-params pair of his own (then gRPC sends both values and REST only "
+               "the computed one: `caller_supplied_header_counterexample`; such calls are compared with the model only)")
+    ctx.assume("a routing template writes its named segment `{key=...}`: the short form `{key}` is understood by to_regex "
+               "(function level, `bare_is_star`) but a rule with it cannot be generated (uri_sample needs the `=`)")
     ctx.assume("REST calls are made only when every http path variable matches its template (transcoding rejects the "
                "request otherwise, before anything is sent)")
     r = ctx.rng("c06")
@@ -981,21 +1215,56 @@ def run(ctx):
     # ---- function level
     check_templates(ctx, r, ctx.n(150, 2500), ctx.n(10, 24), extra=FIXED_TEMPLATES)
     check_many_named(ctx, r, ctx.n(10, 60))
+    check_literals(ctx, r, ctx.n(20, 300))
     check_encode(ctx, r, ctx.n(200, 3000))
     check_field_headers(ctx, r, ctx.n(60, 600))
     check_schema_resolve(ctx, r, ctx.n(40, 600))
     # ---- T3
-    for a in range(ctx.n(5, 290)):
-        specs = [gen_spec(r, i) for i in range(8)]
-        specs[0] = gen_spec(r, 0, "explicit")
-        specs[1] = gen_spec(r, 1, "implicit")
-        run_api(ctx, r, specs, f"api{a}", ncalls=ctx.n(4, 5))
+    run_probe_api(ctx, r)
+    for a in range(ctx.n(5, 260)):
+        specs, layout = gen_api(r)
+        specs[0] = dict(gen_spec(r, 0, "explicit"), svc=specs[0].get("svc", 0))
+        specs[1] = dict(gen_spec(r, 1, "implicit"), svc=specs[1].get("svc", 0))
+        run_api(ctx, r, specs, f"api{a}", ncalls=ctx.n(4, 5), layout=layout, rest_async=(a % 2 == 1), caller_header=0.04)
         ctx.count("stream", "generated-api")
     # ---- the alternative ("ads") templates call their own (identical) copy of create_metadata: sync gRPC only
-    for a in range(ctx.n(1, 40)):
-        specs = [gen_spec(r, i) for i in range(8)]
-        run_api(ctx, r, specs, f"ads{a}", ncalls=ctx.n(3, 4), templates="ads")
+    for a in range(ctx.n(1, 36)):
+        specs, layout = gen_api(r)
+        run_api(ctx, r, specs, f"ads{a}", ncalls=ctx.n(3, 4), templates="ads", layout=layout)
         ctx.count("stream", "generated-api-ads")
+
+
+def gen_api(r, n=8):
+    """eight methods and where they live: with two services the last methods belong to the second one"""
+    layout = gen_layout(r)
+    specs = [gen_spec(r, i) for i in range(n)]
+    if layout["svc2"]:
+        for s in specs[n - 3:]:
+            s["svc"] = 1
+    return specs, layout
+
+
+PROBE_SPECS = [
+    # ordinary methods of the same service, called with and without a caller-supplied routing header
+    {"name": "Method1", "kind": "explicit", "stream": None, "binding": None,
+     "params": [{"field": "name", "segs": [["named", "routing_id", [["lit", "projects"], ["star"]]], ["dstar"]]},
+                {"field": "parent", "segs": [["lit", "profiles"], ["named", "routing_id", [["star"]]]]}],
+     "http": {"verb": "post", "parts": [["lit", "v1"], ["lit", "m1"]], "suffix": ":call"}},
+    {"name": "Method2", "kind": "implicit", "stream": None, "binding": "/v1/alt/{parent=shelves/*}", "params": None,
+     "http": {"verb": "HEAD", "parts": [["lit", "v1"], ["var", "name", [["lit", "shelves"], ["star"]]]], "suffix": ""}},
+]
+PROBE_REQUESTS = {"Method1": [{"name": "projects/p/x", "parent": ""}, {"name": "projects/p", "parent": "profiles/q r"}, {"name": "nope", "parent": ""}],
+                  "Method2": [{"name": "shelves/s 1"}, {"name": ""}]}
+
+
+def run_probe_api(ctx, r):
+    """one fixed API per run: the point the hypothesis of `transports_agree_on_routing_header` excludes
+    (`caller_supplied_header_counterexample`: the caller passes an own x-goog-request-params pair), run through the
+    emitted clients of a service in a sub-package (sync / asyncio gRPC, REST, asyncio REST) next to ordinary calls of
+    the same clients (explicit rule with two parameters sharing a key; custom verb with an additional binding)"""
+    run_api(ctx, r, copy.deepcopy(PROBE_SPECS), "probe", requests=copy.deepcopy(PROBE_REQUESTS),
+            layout=dict(FLAT, kind="svc-sub", svc="admin"), rest_async=True, caller_header=0.5)
+    ctx.count("stream", "probe-api")
 
 
 # the examples of routing.proto / AIP-4222, always run
@@ -1018,8 +1287,8 @@ def search(ctx):
     check_encode(ctx, r, 3000)
     check_field_headers(ctx, r, 400)
     for a in range(16):
-        specs = [gen_spec(r, i) for i in range(8)]
-        run_api(ctx, r, specs, f"search{a}", ncalls=5)
+        specs, layout = gen_api(r)
+        run_api(ctx, r, specs, f"search{a}", ncalls=5, layout=layout, rest_async=(a % 2 == 1))
 
 
 def replay(ctx, payload):
@@ -1032,7 +1301,7 @@ def replay(ctx, payload):
 
 
 CLAIM = dict(
-    text="Lean 4 proof on an executable model of create_metadata that explicit routing is the AIP-4222 fold (for every key the value sent is the capture of the LAST parameter with that key that matches with a non-empty capture; no header iff no parameter contributes; a parameter without template passes the field through and equals `{field=**}`), that the regex RoutingParameter builds captures exactly what a regex-free segment scanner of the template language captures (all templates with one named segment and `**` last, all newline-free values; also for templates without named segment), that implicit routing lists exactly the variables of the primary http path, reads every reserved-word segment of a (dotted) field path from the suffixed attribute — so the attribute path is always a valid Python expression — and sends the raw name, that an empty annotation and client-streaming explicit methods send nothing, that the schema-side RoutingRule.resolve agrees with the emitted chain when no value is empty, and that the encoded header only contains URL-safe characters. Tie: T1 bridge of the field_headers regex and the reserved-name tables; T2 AST equality between the model regex and CPython's parse of the real to_regex().pattern, captures via Python re vs the Lean engine, field_headers/disambiguated, RoutingRule.resolve, urlencode; T3 the header seen by loopback gRPC (sync, asyncio) and HTTP servers for programs of calls (request objects, dicts rebuilt from bytes, literal dicts, request=None; unary, server- and client-streaming; additional bindings; integer path variables) through the emitted clients of the standard and of the ads templates vs the model; a model-independent AIP-4222 reference resolver as oracle.",
+    text="Lean 4 proof on an executable model of create_metadata that explicit routing is the AIP-4222 fold (for every key the value sent is the capture of the LAST parameter with that key that matches with a non-empty capture; no header iff no parameter contributes; a parameter without template passes the field through and equals `{field=**}`), that the regex RoutingParameter builds captures exactly what a regex-free segment scanner of the template language captures (all templates with one named segment and `**` last, all newline-free values; also for templates without named segment), that implicit routing lists exactly the variables of the primary http path, reads every reserved-word segment of a (dotted) field path from the suffixed attribute — so the attribute path is always a valid Python expression — and sends the raw name, that an empty annotation and client-streaming explicit methods send nothing, that the schema-side RoutingRule.resolve agrees with the emitted chain when no value is empty, that the encoded header only contains URL-safe characters, that implicit routing depends on the google.api.http rule only through the path of its primary binding (any member of the pattern oneof incl. `custom {kind, path}`; additional bindings never read), that `{key}` parses to the same template as `{key=*}`, and that what the REST transports send (`dict(metadata)`) under a header name is the last value the gRPC transports send, so that all four transports carry exactly the computed routing header whenever the caller passes none of his own. Tie: T1 bridge of the field_headers regex and the reserved-name tables; T2 AST equality between the model regex and CPython's parse of the real to_regex().pattern, captures via Python re vs the Lean engine, field_headers/disambiguated, RoutingRule.resolve, urlencode; T3 the header seen by loopback gRPC (sync, asyncio) and HTTP servers for programs of calls (request objects, dicts rebuilt from bytes, literal dicts, request=None; unary, server- and client-streaming; additional bindings; integer path variables) through the emitted clients (sync gRPC, asyncio gRPC, REST, asyncio REST) of the standard templates and of the ads templates, for services declared in the API package or in proto sub-packages (six layouts, one or two services) vs the model (`c06.transport`: the header values each transport puts on the wire); a model-independent AIP-4222 reference resolver as oracle.",
     technique="Lean 4 theorems (induction over the parameter list; regex-engine proofs by induction over template segments) + translator bridge + differential T2/T3 against emitted clients on loopback servers",
     design="7.6",
     note="Values with newlines, templates with `**` before the last segment, literals with regex metacharacters, enum/bool routing fields are outside the generated space (stated as assumptions; probes recorded in the evidence). Four defects found by this check were repaired in /repo (findings/C06.json, fixed) and are regression inputs. A fifth (the ads templates ignored google.api.routing) was repaired as well; the ads T3 stream is a regression stream.",
